@@ -11,7 +11,12 @@ import (
 	"time"
 
 	z "github.com/Oudwins/zog"
+	"github.com/Oudwins/zog/conf"
+	"github.com/Oudwins/zog/i18n"
+	"github.com/Oudwins/zog/i18n/en"
+	"github.com/Oudwins/zog/i18n/es"
 	"github.com/Oudwins/zog/parsers/zjson"
+	"github.com/Oudwins/zog/zconst"
 
 	"zogverif/internal/core"
 	"zogverif/internal/gen"
@@ -33,7 +38,7 @@ func (c08) ID() string { return "C08" }
 func (c08) Info(t core.Tier) core.Info {
 	return core.Info{
 		Level: "exploration",
-		Rule: fmt.Sprintf("workers are built with the Go race detector (GORACE halt_on_error=0, reports written to log files, counted and de-duplicated by the zog frames of both accesses). one case = one round: %d shared schema objects (generated: nested structs / slices / pointers, catch, default, post-transforms, customs, Ptr(primitive with tests)) plus one schema built directly on the API whose slice defaults are declared with another slice type than the named destination type and whose elements are written by transforms, are used by %d goroutines x %d calls, "+
+		Rule: fmt.Sprintf("workers are built with the Go race detector (GORACE halt_on_error=0, reports written to log files, counted and de-duplicated by the zog frames of both accesses). one case = one round: %d shared schema objects (generated: nested structs / slices / pointers, catch, default, post-transforms, customs, Ptr(primitive with tests)) plus one schema built directly on the API whose slice defaults are declared with another slice type than the named destination type and whose elements are written by transforms, a struct with a field keyed by the empty string, and calls naming their language while i18n is installed, are used by %d goroutines x %d calls, "+
 			"each call with its own data, destination (struct schemas alternate between two destination types with the same fields in different order) and options (WithCtxValue carrying the goroutine and call id), mixed Parse / Validate; results are randomly handed to Collect / CollectMap / SanitizeAndCollect after comparison; the harness callbacks inject Gosched and short sleeps between nodes. "+
 			"oracle: (a) no race report with a zog frame; (b) the canonical result (issue multiset without $first; destination on success) of every concurrent call == the result of the same call precomputed alone on the same schema object; (c) every callback sees the context values of its own call. "+
 			"an atomic in-flight counter per schema object sampled inside callbacks gives the overlap histogram (a round that never overlaps is not counted). non-trivial: call during which >= 2 calls were in flight on the same schema object; distinct by (round, schema, input, mode).",
@@ -79,7 +84,9 @@ func c08DirectCalls() []*c08call {
 		"rows": z.Slice(z.Slice(z.Int().PostTransform(inc))).Default([][]int{{1, 2}, {3}}),
 		"name": z.String().Default("anon"),
 	})
-	render := func(cfg *c08Cfg, m z.ZogIssueMap) string { return fmt.Sprintf("%v %v %q issues=%v", cfg.Tags, cfg.Rows, cfg.Name, z.Issues.SanitizeMap(m)) }
+	render := func(cfg *c08Cfg, m z.ZogIssueMap) string {
+		return fmt.Sprintf("%v %v %q issues=%v", cfg.Tags, cfg.Rows, cfg.Name, z.Issues.SanitizeMap(m))
+	}
 	mk := func(name string, start func() *c08Cfg) *c08call {
 		cl := &c08call{mode: ref.Validate, desc: "Validate(&Cfg" + name + ") on a shared schema with slice defaults ([]string for a field of a named slice type) and element-writing transforms"}
 		cl.direct = func(opts ...z.ExecOption) string {
@@ -89,11 +96,44 @@ func c08DirectCalls() []*c08call {
 		cl.want = cl.direct()
 		return cl
 	}
-	return []*c08call{
+	out := []*c08call{
 		mk("{}", func() *c08Cfg { return &c08Cfg{} }),
 		mk("{Name}", func() *c08Cfg { return &c08Cfg{Name: "n"} }),
 		mk("{Tags}", func() *c08Cfg { return &c08Cfg{Tags: c08Tags{"x"}} }),
 	}
+	// a struct one of whose fields is keyed by the empty string (valid configuration), failing in a sibling
+	type blank struct {
+		Top  string `zog:""`
+		Name string
+		Tags []string
+	}
+	bsch := z.Struct(z.Schema{"top": z.String(), "name": z.String().Min(3), "tags": z.Slice(z.String().Min(2))})
+	bcall := &c08call{mode: ref.Parse, desc: "Parse into a struct with a field keyed by the empty string, siblings failing"}
+	bcall.direct = func(opts ...z.ExecOption) string {
+		var d blank
+		m := bsch.Parse(map[string]any{"": "t", "name": "x", "tags": []any{"ok", "y"}}, &d, opts...)
+		all, _ := obs.CanonMap(m)
+		return obs.Multiset(all, func(ci obs.CI) string { return ci.Full() })
+	}
+	bcall.want = bcall.direct()
+	out = append(out, bcall)
+	// messages in the language named by each call (i18n is installed for the whole round, see RunCase)
+	for _, lang := range []string{"es", "en", ""} {
+		lang := lang
+		lc := &c08call{mode: ref.Parse, desc: fmt.Sprintf("String().Min(5).Parse with language %q in the context", lang)}
+		lc.direct = func(opts ...z.ExecOption) string {
+			var s string
+			var o []z.ExecOption
+			if lang != "" {
+				o = append(o, z.WithCtxValue("lang", lang))
+			}
+			l := z.String().Min(5).Parse("ab", &s, o...)
+			return obs.Multiset(obs.CanonList(l), func(ci obs.CI) string { return ci.Full() })
+		}
+		lc.want = lc.direct()
+		out = append(out, lc)
+	}
+	return out
 }
 
 type c08shared struct {
@@ -115,6 +155,10 @@ func c08Result(o *run.Outcome) string {
 }
 
 func (c08) RunCase(c *core.Ctx) {
+	// i18n is installed for the whole round (before the solo results are computed): every call names, or does not name, its language
+	savedFmt := conf.IssueFormatter
+	i18n.SetLanguagesErrsMap(map[string]zconst.LangMap{"en": en.Map, "es": es.Map}, "en")
+	defer func() { conf.IssueFormatter = savedFmt }()
 	r := c.R
 	G := tierN(c.Tier, 16, 48)
 	N := tierN(c.Tier, 250, 600)
@@ -346,6 +390,46 @@ func (c08) RunCase(c *core.Ctx) {
 			maxOverlap = b
 		}
 		c.Count(fmt.Sprintf("callbacks_sampled_with_%d_calls_in_flight_on_the_schema", b), int(overlapHist[b]))
+	}
+	// a short burst of nothing but calls that name different languages: each message must be in the caller's language
+	{
+		var bad atomic.Value
+		var n int64
+		var hw sync.WaitGroup
+		for g := 0; g < 8; g++ {
+			hw.Add(1)
+			go func(g int) {
+				defer hw.Done()
+				var s string
+				for k := 0; k < tierN(c.Tier, 1500, 6000); k++ {
+					lang := []string{"es", "en", ""}[(g+k)%3]
+					var o []z.ExecOption
+					if lang != "" {
+						o = append(o, z.WithCtxValue("lang", lang))
+					}
+					l := z.String().Min(5).Parse("ab", &s, o...)
+					want := en.Map[zconst.TypeString][zconst.IssueCodeMin]
+					if lang == "es" {
+						want = es.Map[zconst.TypeString][zconst.IssueCodeMin]
+					}
+					want = strings.ReplaceAll(want, "{{min}}", "5")
+					atomic.AddInt64(&n, 1)
+					if len(l) != 1 || l[0].Message != want {
+						got := fmt.Sprintf("%d issues", len(l))
+						if len(l) == 1 {
+							got = l[0].Message
+						}
+						bad.CompareAndSwap(nil, fmt.Sprintf("language %q: message %q, want %q", lang, got, want))
+					}
+				}
+			}(g)
+		}
+		hw.Wait()
+		c.Eval(int(n))
+		c.Count("language_burst_calls", int(n))
+		if b := bad.Load(); b != nil {
+			c.Violation("concurrent-result-differs-from-solo|language", map[string]any{"first": b, "goroutines": 8})
+		}
 	}
 	for _, d := range diverged {
 		src := "schema built directly on the API (see c08DirectCalls)"
